@@ -267,13 +267,15 @@ pub fn execute_in_thread<S: Scenario>(env: &Envelope<S::Case>, timeout: Duration
 /// initialised by whichever run touches it first, and initialising it draws RandomState keys in
 /// that run's thread. Warm it up before any real run so that a run's hash order does not depend
 /// on which runs happened to precede it in the same process.
-fn warm_up<S: Scenario>() {
+fn warm_up<S: Scenario>(round_deadline: Duration) {
     // regex-automata keeps its per-regex match caches in a pool sharded by (regex thread id % 8); a
     // thread that finds its shard empty creates a cache, and creating one builds a HashMap, i.e. draws
     // RandomState keys in that thread. Running the warm-up on nine consecutive threads leaves a cache
     // for every regex it touches in every shard, so later run threads create none, whatever their id.
     for round in 0..9u64 {
+        let (tx, rx) = std::sync::mpsc::channel::<()>();
         let h = std::thread::Builder::new().stack_size(8 << 20).spawn(move || {
+            let _tx = tx; // dropped when the round ends, however it ends
             hashseed::set_thread_hash_seed(round);
             let _ = std::panic::catch_unwind(|| {
                 use std::str::FromStr;
@@ -291,10 +293,24 @@ fn warm_up<S: Scenario>() {
             }
         });
         if let Ok(h) = h {
-            let _ = h.join();
+            // a warm-up case may hit the very hang the runs are there to find: never wait for it
+            // without a deadline. The stuck thread is abandoned (it dies with the process), the
+            // rest of the warm-up is skipped, and the real runs report the hang under their watchdog.
+            match rx.recv_timeout(round_deadline) {
+                Err(std::sync::mpsc::RecvTimeoutError::Timeout) => {
+                    WARMUP_STUCK.store(true, std::sync::atomic::Ordering::SeqCst);
+                    return;
+                }
+                _ => {
+                    let _ = h.join();
+                }
+            }
         }
     }
 }
+
+/// set when a warm-up round did not finish within its deadline (a library hang on a warm-up case)
+pub static WARMUP_STUCK: std::sync::atomic::AtomicBool = std::sync::atomic::AtomicBool::new(false);
 
 fn make_envelope<S: Scenario>(seed: u64, tier: Tier, k: u64) -> Envelope<S::Case> {
     let mut rng = Rng::new(mix(seed, S::ID, k));
@@ -342,13 +358,22 @@ pub fn exec_isolated<S: Scenario>(env: &Envelope<S::Case>, timeout: Duration) ->
         let mut stdin = child.stdin.take().unwrap();
         let _ = stdin.write_all(serde_json::to_string(env).unwrap().as_bytes());
     }
-    let start = Instant::now();
+    let spawned = Instant::now();
+    let mut start: Option<Instant> = None;
     let mut hung = false;
     loop {
         match child.try_wait() {
             Ok(Some(_)) => break,
             Ok(None) => {
-                if start.elapsed() > timeout {
+                if start.is_none() {
+                    // the child's warm-up (bounded on its side) does not count against the case
+                    let raw = probe::read_raw(&pfile);
+                    let warmed = raw.len() >= 264 && raw[0..8] == [0u8; 8] && raw[256..264] != [0u8; 8];
+                    if warmed || spawned.elapsed() > Duration::from_secs(30) {
+                        start = Some(Instant::now());
+                    }
+                }
+                if start.map(|s| s.elapsed() > timeout).unwrap_or(false) {
                     hung = true;
                     let _ = child.kill();
                     break;
@@ -406,7 +431,7 @@ fn minimise<S: Scenario>(env: Envelope<S::Case>, sig: &str, isolated: bool) -> (
     let mut cur = env;
     let mut detail = String::new();
     let mut execs = 0u64;
-    let budget = if isolated { 80 } else { 20_000 };
+    let budget = if isolated { 40 } else { 20_000 };
     let try_one = |e: &Envelope<S::Case>| -> Option<(String, String)> {
         if isolated {
             let r = exec_isolated::<S>(e, Duration::from_secs(3));
@@ -480,7 +505,7 @@ pub fn worker_main<S: Scenario>(args: &[String]) -> i32 {
         eprintln!("HARNESS-ERROR {e}");
         return 2;
     }
-    warm_up::<S>();
+    warm_up::<S>(Duration::from_secs(20));
     let stdout = std::io::stdout();
     let mut done = WorkerDone::default();
     let mut states: HashSet<u64> = HashSet::new();
@@ -592,7 +617,9 @@ pub fn exec_main<S: Scenario>(args: &[String]) -> i32 {
             return 2;
         }
     };
-    warm_up::<S>();
+    // the parent's clock for the case starts when the warm-up is over (run index 0 with a moving heartbeat)
+    probe::set_run(u64::MAX);
+    warm_up::<S>(Duration::from_secs(2));
     probe::set_run(0);
     match execute_in_thread::<S>(&env, Duration::from_secs(16)) {
         ThreadResult::Hang => 3,
@@ -679,6 +706,29 @@ fn run_worker(id: &str, tier: Tier, seed: u64, start: u64, end: u64, stride: u64
         String::from_utf8_lossy(&s).to_string()
     });
     let mut out = ChildOut { done: None, violations: vec![], hang_k: None, status_ok: false, stderr: String::new() };
+    // safety net behind the worker's own per-run watchdog: a worker whose progress page has not
+    // moved for two minutes is killed and handled like any other worker that died inside a run
+    let pid = child.id();
+    let pfile = format!("{dir}/w{widx}.progress");
+    let stop = std::sync::Arc::new(std::sync::atomic::AtomicBool::new(false));
+    let stop2 = stop.clone();
+    let mon = std::thread::spawn(move || {
+        let mut last = probe::read_raw(&pfile);
+        let mut since = Instant::now();
+        while !stop2.load(std::sync::atomic::Ordering::SeqCst) {
+            std::thread::sleep(Duration::from_millis(500));
+            let now = probe::read_raw(&pfile);
+            if now != last {
+                last = now;
+                since = Instant::now();
+            } else if since.elapsed() > Duration::from_secs(120) {
+                unsafe {
+                    libc::kill(pid as i32, libc::SIGKILL);
+                }
+                return;
+            }
+        }
+    });
     let rd = std::io::BufReader::new(child.stdout.take().unwrap());
     for line in rd.lines().map_while(Result::ok) {
         if let Ok(v) = serde_json::from_str::<Value>(&line) {
@@ -695,10 +745,14 @@ fn run_worker(id: &str, tier: Tier, seed: u64, start: u64, end: u64, stride: u64
         }
     }
     let st = child.wait().expect("wait worker");
+    stop.store(true, std::sync::atomic::Ordering::SeqCst);
+    let _ = mon.join();
     out.status_ok = st.success();
     out.stderr = errt.join().unwrap_or_default();
     out
 }
+
+static CRASH_SIGS: std::sync::Mutex<std::collections::BTreeSet<String>> = std::sync::Mutex::new(std::collections::BTreeSet::new());
 
 struct Merged {
     done: WorkerDone,
@@ -734,9 +788,12 @@ fn run_pool<S: Scenario>(tier: Tier, seed: u64, runs: u64, jobs: u64, dir: &str,
                     let iso = exec_isolated::<S>(&env, Duration::from_secs(20));
                     if let Some(sig) = iso.signature {
                         let isolated = is_crash_class(&sig);
-                        if !crash.iter().any(|c| c.signature == sig) {
+                        // one minimisation per signature for the whole pool: isolated shrinking is slow
+                        let (first, nth) = CRASH_SIGS.lock().map(|mut g| (g.insert(sig.clone()), g.len())).unwrap_or((true, 1));
+                        if first && !crash.iter().any(|c| c.signature == sig) {
                             let original = serde_json::to_value(&env).unwrap();
-                            let (small, d2, execs) = minimise::<S>(env, &sig, isolated);
+                            // the first two crash signatures of a check are minimised; further ones are reported as found
+                            let (small, d2, execs) = if isolated && nth > 2 { (env, String::new(), 0) } else { minimise::<S>(env, &sig, isolated) };
                             crash.push(FoundViolation {
                                 k,
                                 signature: sig,
@@ -755,7 +812,7 @@ fn run_pool<S: Scenario>(tier: Tier, seed: u64, runs: u64, jobs: u64, dir: &str,
                     }
                     outs.push(o);
                     start = k + jobs;
-                    if start >= runs || died > 8 {
+                    if start >= runs || died > 3 {
                         break;
                     }
                 }
@@ -815,7 +872,14 @@ pub fn run_main<S: Scenario>(tier: Tier) -> i32 {
 
     // determinism: re-execute the digest sample in a pool of a different size
     let jobs2 = if jobs > 3 { 3 } else { jobs + 1 };
-    let second = run_pool::<S>(tier, seed, runs, jobs2, &dir, true);
+    // (skipped when workers died inside runs: the sample would die at the same runs again, slowly, and the
+    // run is going to end with a violation or a harness error anyway)
+    let second = if merged.workers_died > 0 {
+        println!("note: determinism sample skipped, {} worker deaths in the main pool", merged.workers_died);
+        Merged { done: WorkerDone::default(), violations: vec![], workers_died: 0 }
+    } else {
+        run_pool::<S>(tier, seed, runs, jobs2, &dir, true)
+    };
     let a: BTreeMap<u64, u64> = merged.done.sample_digests.iter().cloned().collect();
     let b: BTreeMap<u64, u64> = second.done.sample_digests.iter().cloned().collect();
     let mut mismatches = 0u64;
